@@ -80,6 +80,9 @@ def render_case(case):
 def body(ctx, case):
     (fam, M), k, sel, scale, bonus, eos, start, lm_seed, lm_type = case
     T, C = M.shape
+    if k > 10 and C ** T > 4000:
+        k = 10
+        case = ((fam, M), k) + tuple(case[2:])
     dec, plain, lm, init_h, seq, tol = build(ctx, case)
     desc = lambda: render_case(case)
     ctx.event("lm:" + lm_type)
